@@ -813,6 +813,11 @@ func (fc *FontConfigurationPango) splitFirstLine(hyphenCache map[HyphenDictKey]h
 		var newFirstLineText, hyphenatedFirstLineText string
 		for _, firstWordPart := range dictionaryIterations {
 			newFirstLineText = (firstLineText + string(secondLineText[:startWord]) + firstWordPart)
+			if len([]rune(newFirstLineText)) > len(text) {
+				// Pango found no second line: secondLineText is the whole text again, not
+				// what follows firstLineText, and its first word can't be added to the line
+				continue
+			}
 			hyphenatedFirstLineText = (newFirstLineText + hyphenateCharacter)
 			newLayout := createLayout(hyphenatedFirstLineText, style, fc, maxWidth)
 			newFirstLine, newIndex := newLayout.GetFirstLine()
